@@ -151,7 +151,7 @@ def _group(draw, prods, cstage: int, out_locs: List[str], contents: dict, max_re
                 add({"kind": "comp", "p": draw(st.integers(0, nprod - 1)), "path": path, "method": method})
         else:
             p = draw(st.integers(0, nprod - 1))
-            path = draw(st.sampled_from([None, None] + path_pool)) if method == "ref" else \
+            path = draw(st.sampled_from([None, None, ""] + path_pool)) if method == "ref" else \
                 draw(st.sampled_from([None] + path_pool))
             add({"kind": "comp", "p": p, "path": path, "method": method})
     if not refs:
@@ -248,6 +248,8 @@ def spelling(prods, cstage: int, r: dict, how: str) -> str:
     s = p["name"] if how == "rel" else "stage%d.%s" % (p["stage"], p["name"])
     if r["path"]:
         s += "/" + r["path"]
+    elif r["path"] == "":
+        s += "/"                       # an empty file part: the producer's directory, written with a trailing slash
     return "%s:%s" % (s, r["method"])
 
 
@@ -267,6 +269,8 @@ def target_relpath(prods, r: dict) -> Optional[str]:
     base = "stages/stage%d/%s" % (p["stage"], p["name"])
     if r["path"]:
         return base + "/" + r["path"]
+    if r["path"] == "":
+        return base + "/"
     if r["method"] == "output":
         return base + "/out.stdout"
     return base
